@@ -495,27 +495,63 @@ func c12R5(c *Ctx, rule string) {
 			c.Check(ok, rule, "writer of activeStreamCount in "+shortFn(f), c.at(i), "atomic ±1 in the dedicated helper", "the stream counter is written by "+n+" outside streamCountIncr/Decr or by a step other than ±1")
 		})
 	}
-	for _, cs := range p.CallersOf(incr) {
-		f := cs.Parent()
-		construct := "increment in " + shortFn(f)
-		// a live insert into streams dominates the increment
-		dom := false
-		allInstrs(f, func(i ssa.Instruction) {
-			if mu, ok := i.(*ssa.MapUpdate); ok && !isNilConst(mu.Value) {
-				if fv, _ := loadedField(mu.Map); fv == a.streams && instrDominates(i, cs) {
-					dom = true
-				}
-			}
-		})
-		c.Check(dom, rule, construct, c.at(cs), "dominated by the insert of a live stream", "counter incremented on a path that did not register a stream: the count drifts upwards and the inactivity timer never fires")
+	// live inserts, and for an insert made by a helper that reports it (bool / error result), the helper's outcome
+	type liveInsert struct {
+		acc Access
+		oc  *eventOutcome
 	}
-	// every live insert is followed by an increment on all paths to a non-error return
+	var inserts []liveInsert
 	for _, acc := range FieldAccesses(p, map[*types.Var]bool{a.streams: true}) {
 		if acc.Kind != "mapupdate" || isNilConst(acc.Instr.(*ssa.MapUpdate).Value) || strings.HasSuffix(p.Pos(acc.Fn.Pos()), "_fuzz.go") {
 			continue
 		}
+		inserts = append(inserts, liveInsert{acc, outcomeOfEvent(acc.Fn, acc.Instr)})
+	}
+	for _, cs := range p.CallersOf(incr) {
+		f := cs.Parent()
+		construct := "increment in " + shortFn(f)
+		// a live insert into streams dominates the increment — directly, or through a helper whose reported outcome
+		// ("inserted") is a guard of the increment
+		dom := false
+		for _, li := range inserts {
+			if li.acc.Fn == f && instrDominates(li.acc.Instr, cs) {
+				dom = true
+			}
+			if li.oc != nil {
+				for _, hc := range p.CallersOf(li.acc.Fn) {
+					if call, ok := hc.(*ssa.Call); ok && call.Parent() == f && instrDominates(call, cs) && li.oc.at(call, cs) > 0 {
+						dom = true
+					}
+				}
+			}
+		}
+		c.Check(dom, rule, construct, c.at(cs), "dominated by the insert of a live stream", "counter incremented on a path that did not register a stream: the count drifts upwards and the inactivity timer never fires")
+	}
+	// every live insert is followed by an increment on all paths to a return
+	for _, li := range inserts {
+		acc := li.acc
 		r := mustPass(acc.Instr, func(i ssa.Instruction) bool { return callsFn(i, incr) })
-		c.Check(r == nil, rule, "insert in "+shortFn(acc.Fn)+" is followed by an increment on every path", c.at(acc.Instr), "streamCountIncr post-dominates the insert", "a stream is registered but on some path the counter is not incremented: the session can time out under a live stream")
+		okPair := r == nil
+		if !okPair && li.oc != nil {
+			// the helper reports the insert: every caller increments on every path on which the report is not "no insert"
+			callers := p.CallersOf(acc.Fn)
+			okPair = len(callers) > 0
+			for _, hc := range callers {
+				call, isCall := hc.(*ssa.Call)
+				if !isCall {
+					okPair = false
+					continue
+				}
+				miss := forwardSearch(call, func(i ssa.Instruction) bool { return callsFn(i, incr) }, func(i ssa.Instruction) bool {
+					_, isRet := i.(*ssa.Return)
+					return isRet && li.oc.at(call, i) >= 0
+				})
+				if miss != nil {
+					okPair = false
+				}
+			}
+		}
+		c.Check(okPair, rule, "insert in "+shortFn(p.ownerAnchor(acc.Fn))+" is followed by an increment on every path", c.at(acc.Instr), "streamCountIncr post-dominates the insert", "a stream is registered but on some path the counter is not incremented: the session can time out under a live stream")
 	}
 	for _, cs := range p.CallersOf(decr) {
 		f := cs.Parent()
